@@ -68,7 +68,7 @@ def ram_spec(profile):
     return st.one_of(*common)
 
 
-ASG_FAULTS = ["cpu_over", "ram_over", "two_ops", "zero_cpu", "zero_ram", "no_ops", "completed_op", "skip_parent",
+ASG_FAULTS = ["cpu_over", "ram_over", "cpu_over", "ram_over", "two_ops", "zero_cpu", "zero_ram", "no_ops", "completed_op", "skip_parent",
               "unknown_pool", "neg_pool", "double", "running_op"]
 SUS_FAULTS = ["any", "any", "suspending", "unknown", "dup", "wrongpool", "suspended", "negpool", "negpool", "bigpool"]
 
@@ -145,6 +145,11 @@ def machine_spec(draw, profile="general", tier="quick"):
             if asg and draw(st.booleans()):
                 k = draw(st.integers(0, len(asg) - 1))
                 f = draw(st.sampled_from(ASG_FAULTS))
+                if f in ("cpu_over", "ram_over") and len(asg) >= 2:
+                    # the request that does not fit is a later one of a batch for the same pool: each request fits on
+                    # its own, only the sum oversells
+                    k = max(k, 1)
+                    asg[k][0] = asg[k - 1][0]
                 if f == "cpu_over":
                     asg[k][3] = ["over", draw(st.integers(1, 3))]
                 elif f == "ram_over":
